@@ -1,33 +1,27 @@
 CONSTANTS
-  NTags = 2
-  NCallers = 1
+  NP = 1
+  NA = 1
   PNames <- MC_PNames
   ANames <- MC_ANames
   PRates <- MC_PRates
   ARates <- MC_ARates
-  MaxFrames = 2
-  MaxPts = 2
+  MaxFrames = 1
+  MaxPts = 1
   MaxCh = 1
   FrameKinds <- MC_FrameKinds
   ColKinds <- MC_ColKinds
   Tags <- MC_Tags
-  IdxSlack = 2
+  IdxSlack = 1
   UserParams <- MC_UserParams
   LockNames <- MC_LockNames
   CallerIds <- MC_CallerIds
-  WithReload = FALSE
+  WithReload = TRUE
   Lookups = FALSE
   Phased = TRUE
 INIT Init
 NEXT Next
 VIEW View
 INVARIANT MandInv
-INVARIANT AgreePointsInv
-INVARIANT AgreeFramesInv
-INVARIANT AgreeAnalogsInv
-INVARIANT AgreeRateInv
+INVARIANT IOInv
 PROPERTY RefusedUnchanged
-PROPERTY FrameStoreOK
-PROPERTY ColumnsOK
-PROPERTY CallerIndependent
 CHECK_DEADLOCK FALSE
